@@ -71,7 +71,13 @@ RULE = ("per near-earth TLE (repo test TLEs + generated LEO sets, epoch at and o
         "another one, decimal context precision/rounding, numpy print options, np.seterr(all=ignore|warn|call), the process-wide "
         "logging configuration (root / pyorbital / pyorbital.orbital logger at DEBUG with a NullHandler or a StringIO handler - "
         "always one of these with the run's own zone -, logging.disable, other levels; restored afterwards) - byte-wise "
-        "equal to the result under the run's own zone with nothing else changed; (2) real threads under a "
+        "equal to the result under the run's own zone with nothing else changed; (1f) histories of 3-10 steps on one object "
+        "under test during which TWO OTHER objects (other real sets, generated high-drag sets, sets of the other near-earth mode) "
+        "are constructed and queried in between: array queries (get_position, get_lonlatalt, get_observer_look) that all have one "
+        "shape (1-d of 1-6, 2-d) at other instants every time (time windows; one time grid on several satellites), scalar and "
+        "pool queries; every result of every object compared byte-wise with a FRESH object's (all references computed before "
+        "the history starts), and every array any query returned is KEPT by the caller (the object and a byte copy) and must "
+        "still hold its bytes after every later step (returned_value_changed_later); (2) real threads under a "
         "deterministic scheduler (sys.settrace, semaphores; a switch happens only before a source line of pyorbital/orbital.py): "
         "for two concurrent get_orbit_number calls ALL single pre-emption points in get_orbit_number's own frame, the first "
         "occurrence(s) of every distinct source line below it, a random sample of the rest, two-pre-emption schedules "
@@ -88,7 +94,7 @@ RULE = ("per near-earth TLE (repo test TLEs + generated LEO sets, epoch at and o
         "observed load/store sequence of orbit_elements.an_time/an_period (threads and sequential histories) must be exactly "
         "the trace PV.Model.Cache produces when replayed in the observed thread order (driver op c18vis), the store "
         "statement used must be the one a fresh call uses, and every stored/loaded value must be the canonical one; "
-        "distinct = (tle, history) or (tle, queries, plan) or (tle, event sequence) or (tle, environment query)")
+        "distinct = (tle, history) or (tle, queries, plan) or (tle, event sequence) or (tle, environment query) or (tle, other sets, steps)")
 ASSUMPTIONS = ["the GIL makes a single attribute load/store of orbit_elements atomic; thread switches inside one bytecode or "
                "inside numpy's C code are not modelled (the scheduler switches at source-line boundaries of pyorbital/orbital.py)",
                "numpy's own purity: ufuncs and datetime arithmetic return the same bytes for the same input bytes and keep no "
@@ -1334,6 +1340,184 @@ def gen_alias_history(rng):
     return h
 
 
+# ---------------------------------------------------------------- (1f) results held by the caller; other objects in the process
+# "The result of a query depends only on its TLE and the arguments": (i) a result that was correct when it was returned and
+# CHANGES afterwards - because a later query, on this or on any other object, writes into storage the returned array still
+# shares - is not a function of the arguments; (ii) neither is a result that depends on which OTHER objects have been
+# constructed or queried in the process meanwhile.  A case is {"kind": "world", "tle": <the object under test>, "others":
+# [<element sets of other objects>], "steps": [...]}; a step is {"o": k, "new": 1} (construct object k >= 1 from
+# others[k-1]; an earlier object of that slot is dropped) or {"o": k, "q": <query>} (query on object k, 0 = the object under
+# test, times relative to THAT object's epoch).  The caller keeps every array it got (the object and a byte copy).
+def arrays_in(x, out=None):
+    """the numeric ndarray objects inside a result (tuples/lists are walked)"""
+    np = _np()
+    out = [] if out is None else out
+    if isinstance(x, np.ndarray):
+        if x.dtype != object:
+            out.append(x)
+    elif isinstance(x, (tuple, list)):
+        for v in x:
+            arrays_in(v, out)
+    return out
+
+
+def _same_bytes(a, copy):
+    return a.shape == copy[0] and a.dtype.str == copy[1] and _np().ascontiguousarray(a).tobytes() == copy[2]
+
+
+def world_sat(tle, satmap):
+    """the Sat (reference results of a fresh object) of an element set; None when no object can be built from it"""
+    tle = tuple(tle)
+    if tle not in satmap:
+        try:
+            satmap[tle] = Sat(tle)
+        except Exception:  # noqa
+            satmap[tle] = None
+    return satmap[tle]
+
+
+def run_world(sat, w, on_violation, count=None, satmap=None):
+    """The history w["steps"] on ONE object under test while OTHER objects are constructed and queried in between; every
+    result (of every object) must be the bytes a fresh object returns, and every array any query returned must still hold
+    the bytes it held when it was returned after every later step."""
+    _mods()
+    np = _np()
+    satmap = {} if satmap is None else satmap
+    satmap.setdefault(tuple(sat.tle), sat)
+    tles = [tuple(sat.tle)] + [tuple(t) for t in w["others"]]
+    # ALL fresh-object references first, from the pristine state: no object is built for a reference while the history runs
+    refs = []
+    for st in w["steps"]:
+        s = world_sat(tles[st["o"]], satmap) if "q" in st else None
+        refs.append(s.fresh(st["q"]) if s is not None else None)
+    reinstate(BASE)
+    objs = {0: new_orbital(sat.tle)}
+    held = []                                              # [array object, (shape, dtype, bytes), step, query, object index]
+    for idx, st in enumerate(w["steps"]):
+        o = st["o"]
+        case = {"kind": "world", "tle": list(sat.tle), "others": [list(t) for t in w["others"]],
+                "steps": w["steps"][:idx + 1], "index": idx}
+        if st.get("new"):
+            try:
+                objs[o] = new_orbital(tles[o])
+            except Exception:  # noqa  no object from this element set (its construction may still have run code)
+                objs.pop(o, None)
+            what = "the construction of another Orbital (object %d)" % o
+        else:
+            q, ref = st["q"], refs[idx]
+            if ref is None or o not in objs:
+                continue
+            args = mkargs(q, satmap[tles[o]].epoch)
+            try:
+                res = _guarded(lambda: call(objs[o], q, args), 20.0)
+            except _Timeout:
+                res = Runaway("no result after 20 s (fresh object: %s)" % ref[1])
+            if count:
+                count()
+            what = "%s on %s" % (q["m"], "the same object" if o == 0 else "another object (object %d)" % o)
+            if fp(res) != ref[0]:
+                on_violation("history_dependent", case,
+                             "%s, %d other object(s) constructed in the process: %s" % (
+                                 what, sum(1 for s in w["steps"][:idx] if s.get("new")), short(res)),
+                             "fresh object: " + ref[1], q["m"])
+            for a in arrays_in(res):
+                held.append([a, (a.shape, a.dtype.str, np.ascontiguousarray(a).tobytes()), idx, q, o])
+            scribble(args)                                 # the caller reuses its argument buffers; it KEEPS what it was given
+        for h in held:
+            if h[2] < idx and h[1] is not None and not _same_bytes(h[0], h[1]):
+                was = np.frombuffer(h[1][2], dtype=h[1][1]).reshape(h[1][0])
+                on_violation("returned_value_changed_later", dict(case, held=h[2]),
+                             "array returned by step %d (%s on object %d) was %s and is %s after %s" % (
+                                 h[2], h[3]["m"], h[4], short(was, 100), short(h[0], 100), what),
+                             "a returned array keeps the values it was returned with (no later query writes into it)",
+                             h[3]["m"])
+                h[1] = None                                # reported once
+    reinstate(BASE)
+
+
+def gen_other_sets(rng, sats, n=6):
+    """element sets for the OTHER objects of the process: the other real sets of the run, generated near-earth sets with high
+    drag (B* of 1e-3 .. 1e-2), and low ones of the other near-earth mode (perigee below 220 km)"""
+    out = [tuple(s.tle) for s in sats]
+    for k in range(n):
+        kind = ("drag", "low", "leo")[k % 3]
+        for _ in range(20):
+            if kind == "drag":
+                ov = {"bstar": tlegen.fmt_expo("".join(rng.choice("123456789") for _ in range(5)), rng.choice(" -+"),
+                                               rng.choice([-3, -2, -2]), expsign="-")}
+                _, l1, l2 = tlegen.random_tle(rng, rng.choice(["near", "leo"]), ov)
+            elif kind == "low":
+                _, l1, l2 = tlegen.random_tle(rng, "leo", {"mmotion": "%11.8f" % rng.uniform(16.1, 16.6)})
+            else:
+                _, l1, l2 = tlegen.random_tle(rng, "leo")
+            try:
+                new_orbital((l1, l2))
+            except Exception:  # noqa
+                continue
+            out.append((l1, l2))
+            break
+    return out
+
+
+WORLD_ARRAY_KINDS = ["get_position", "get_position", "get_position", "get_lonlatalt", "get_observer_look"]
+
+
+def gen_world(rng, sat, pool, other_sets):
+    """3-10 steps: array queries that all have ONE shape (other instants every time: two time windows on one satellite, or one
+    time grid on two satellites), ordinary queries of the pool, constructions of and queries on two other objects"""
+    day = 86400 * 10 ** 6
+    cands = [t for t in other_sets if tuple(t) != tuple(sat.tle)]
+    others = [list(t) for t in rng.sample(cands, min(2, len(cands)))]
+    shape = rng.choice([None, None, None, [2, 2], [3, 2], [1, 4]])
+    n = shape[0] * shape[1] if shape else rng.randrange(1, 7)
+    grids = []
+
+    def arrq(other=False):
+        if grids and rng.random() < 0.3:
+            us = rng.choice(grids)                         # one time grid (relative to the epoch) for several queries/satellites
+        elif rng.random() < 0.5:
+            t0, step = rng.randrange(-day, day), rng.choice([1, 10, 60, 600]) * 10 ** 6
+            us = [t0 + i * step for i in range(n)]         # a time window
+        else:
+            us = [rng.randrange(-day, day) for _ in range(n)]
+        grids.append(us)
+        m = rng.choice([k for k in WORLD_ARRAY_KINDS if not (other and k == "get_lonlatalt")])
+        q = {"m": m, "tk": "arr", "us": us}
+        if shape and m != "get_lonlatalt":
+            q["shape"] = shape
+        if m == "get_position":
+            q["normalize"] = rng.random() < 0.5
+        if m == "get_observer_look":
+            q.update(lon=[rng.uniform(-180, 180) for _ in range(n)], lat=[rng.uniform(-90, 90) for _ in range(n)],
+                     alt=[rng.uniform(0, 3) for _ in range(n)])
+        return q
+
+    def scalq():
+        m = rng.choice(["get_position", "get_observer_look"])
+        q = {"m": m, "tk": rng.choice(["np", "py"]), "us": [rng.randrange(-3 * day, 3 * day)]}
+        if m == "get_position":
+            q["normalize"] = rng.random() < 0.5
+        else:
+            q.update(lon=[rng.uniform(-180, 180)], lat=[rng.uniform(-90, 90)], alt=[rng.uniform(0, 3)])
+        return q
+    steps = []
+    built = set()
+    for k in range(rng.randrange(3, 11)):
+        u = rng.random()
+        if others and (u < 0.2 or (u < 0.45 and not built)):
+            o = rng.randrange(1, len(others) + 1)
+            steps.append({"o": o, "new": 1})
+            built.add(o)
+        elif built and u < 0.5:
+            steps.append({"o": rng.choice(sorted(built)), "q": arrq(True) if rng.random() < 0.7 else scalq()})
+        else:
+            v = rng.random()
+            steps.append({"o": 0, "q": arrq() if v < 0.55 else scalq() if v < 0.75 or not pool else rng.choice(pool)})
+    if not any(s["o"] == 0 and "q" in s for s in steps[1:]):
+        steps.append({"o": 0, "q": arrq()})
+    return {"others": others, "steps": steps}
+
+
 # ---------------------------------------------------------------- (2) deterministic scheduler
 class SchedulerError(Exception):
     pass
@@ -2151,6 +2335,24 @@ def oracle(ctx):
             if len(ctx.violations) > 20:
                 break
     mark("(1b) aliasing")
+    # (1f) results held by the caller across later queries (same object, other objects); other objects constructed and queried
+    #      between the queries of a history
+    budget = Budget(ctx, (6 if not ctx.intensified else 15) if quick else 50)
+    other_sets = gen_other_sets(ctx.rng, sats)
+    satmap = {tuple(s.tle): s for s in sats}
+    for sat in sats:
+        for _ in range(ctx.size(30, 300) * scale):
+            if budget.over() or len(ctx.violations) > 20:
+                break
+            w = gen_world(ctx.rng, sat, pools[sat.tle], other_sets)
+            run_world(sat, w, viol, count=lambda: ctx.count("eval_world_query"), satmap=satmap)
+            ctx.distinct((sat.tle[0][2:7], "w", json.dumps(w, sort_keys=True)))
+            ctx.bump("world_history_length", len(w["steps"]))
+            for st in w["steps"]:
+                ctx.bump("world_steps", "construct another object" if st.get("new") else "%s%s on %s" % (
+                    st["q"]["m"], " (array)" if st["q"]["tk"] in ("arr", "obj") else "",
+                    "the object under test" if st["o"] == 0 else "another object"))
+    mark("(1f) held results, other objects")
     compare_with_child(begun, viol, count=lambda: ctx.count("eval_untouched_interpreter_reference"), note=ctx.note)
     mark("child interpreter references (waiting)")
     if len(ctx.violations) > 20:
@@ -2253,6 +2455,12 @@ def _replay_one(inp, found, corr):
             print("   caller:", ", ".join(json.dumps(m, sort_keys=True) for m in st.get("mut") or []) or "(no change)",
                   " then", st["m"], "" if st.get("normalize") is None else "normalize=%s" % st["normalize"])
         run_alias_history(sat, h, viol)
+    elif inp.get("kind") == "world":
+        print("one object under test, %d other element set(s); the caller keeps every array it is given:" % len(inp["others"]))
+        for i, st in enumerate(inp["steps"]):
+            print("   step %d:" % i, "construct object %d from %s" % (st["o"], inp["others"][st["o"] - 1][0][2:7]) if st.get("new")
+                  else "object %d: %s" % (st["o"], qkey(st["q"])))
+        run_world(sat, inp, viol)
     elif inp.get("kind") == "env":
         print("one query on a fresh object under two process environments:")
         print("  ", qkey(inp["q"]))
